@@ -218,7 +218,7 @@ def build_real(p: Program):
         if site.executor is not None:
             opts["executor"] = site.executor
         if site.cse_off:
-            from redun.scheduler_config import CacheResult  # noqa: F401
+            from redun.task import CacheResult
             opts["allowed_cache_results"] = {CacheResult.SINGLE, CacheResult.ULTIMATE}
         if site.ctx:
             t = t.update_context(site.ctx)
@@ -469,6 +469,23 @@ def enumerate_schedules(run_fn, max_runs):
         ctl = run_fn(list(prefix))
         n += 1
         yield ctl
+        taken, counts = ctl.taken, ctl.opt_counts
+        i = len(taken) - 1
+        while i >= 0 and taken[i] + 1 >= counts[i]:
+            i -= 1
+        if i < 0:
+            return
+        prefix = taken[:i] + [taken[i] + 1]
+
+
+def enumerate_schedules_pairs(run_fn, max_runs):
+    """like enumerate_schedules for run_fn returning (ctl, extra); yields the pairs"""
+    prefix = []
+    n = 0
+    while n < max_runs:
+        ctl, extra = run_fn(list(prefix))
+        n += 1
+        yield ctl, extra
         taken, counts = ctl.taken, ctl.opt_counts
         i = len(taken) - 1
         while i >= 0 and taken[i] + 1 >= counts[i]:
